@@ -91,6 +91,30 @@ def run(ck, fx, cg, tier):
         c05_vm.orientation_rules(ck, fx, cg, rule="R13.vm")
     except ImportError:
         ck.note("R13.vm: VM-side orientation rules not built yet")
+    _jump_targets(ck, fx, cg)
+
+
+def _jump_targets(ck, fx, cg):
+    """The conditional's and the loop's control flow (only the taken branch; condition before each iteration and
+    once more at exit) is realised by jumps to labels: it holds only if every jump reaches the label of its own
+    construct, i.e. label names are unique program-wide. That is C02's label discipline (R2.labels); its obligations
+    are evaluated here as a presupposition of the ordering statement."""
+    from ..core import Check, load_known
+    from . import c02
+    known = load_known()
+    sub = Check("C02", ck.tier, ck.seed)
+    try:
+        c02.run(sub, fx, cg, "quick")
+    except Exception as e:  # noqa
+        ck.ob("R13.jumps", "label discipline", False, "", "C02's label rules could not be evaluated: %s: %s" % (type(e).__name__, e))
+        return
+    labs = [o for o in sub.obligs if o["rule"].startswith("R2.labels")]
+    bad = [o for o in labs if not o["ok"] and ("C02", "%s|%s" % (o["rule"], o["key"])) not in known]
+    ck.ob("R13.jumps", "every jump reaches the label of its own construct", not bad, bad[0]["where"] if bad else "",
+          "%d label obligation(s) (fresh group per construct, emitted once, strictly increasing counter, one generator) hold" % len(labs) if not bad else
+          "%d label obligation(s) violated, first: %s — %s: a Branch/Jump can land in another construct, so a branch not taken or a loop body of another method runs" % (
+              len(bad), bad[0]["key"], bad[0]["detail"][:200]))
+    ck.floor("R13.jumps", "label obligations evaluated", len(labs), 8)
 
 
 SIDE_EFFECT_FREE = {"Integer", "Boolean", "Null", "AccessVariable"}
